@@ -843,6 +843,14 @@ class TrajectoryStore:
         if not self.indexable:
             raise RuntimeError('Cannot lookup by flight_id in non-indexable store')
 
+        # An in-memory store has no index group to search: all of its
+        # trajectories are in the cache, so look there directly.
+        if not self.nc_linked:
+            for traj in self._trajectories.values():
+                if traj.flight_id == flight_id:
+                    return traj
+            return None
+
         # Reindex lazily if needed.
         if self.index_stale:
             self._reindex()
@@ -1521,6 +1529,11 @@ class TrajectoryStore:
         # NOTE: Takes about 1.5s on a store with 1 million trajectories.
 
         if not self.indexable or not self.index_stale:
+            return
+
+        # An in-memory store has no NetCDF index to regenerate: the index is
+        # (still) stale and gets built once the store is saved to a file.
+        if not self.nc_linked:
             return
 
         # Get the NetCDF4 groups for the base field set.
